@@ -104,8 +104,18 @@ def build_traces(path, tier, seed):
         try:
             with warnings.catch_warnings():
                 warnings.simplefilter("ignore")
-                y, ndt = tp.interp_array_to_approx_dt(x.copy(), dt, target, even=even)
-                o = tp.interp_to_approx_dt(eqsig.AccSignal(x.copy(), dt), target, even=even)
+                xin = x.copy()
+                y, ndt = tp.interp_array_to_approx_dt(xin, dt, target, even=even)
+                oin = eqsig.AccSignal(x.copy(), dt)
+                o = tp.interp_to_approx_dt(oin, target, even=even)
+                if rng.integers(2):
+                    # history: the same array / object again (also after a Fourier resample of the same object); the LAST results count
+                    y, ndt = tp.interp_array_to_approx_dt(xin, dt, target, even=even)
+                    try:
+                        tp.resample_to_approx_dt(oin, target, even=even)
+                    except Exception:
+                        pass
+                    o = tp.interp_to_approx_dt(oin, target, even=even)
                 ondt = o.dt
                 same = bool(len(o.values) == len(y) and np.array_equal(o.values, y))
         except Exception as ex:
@@ -132,8 +142,20 @@ def build_traces(path, tier, seed):
         # band limit: below the Nyquist frequency of the coarser of (input, output) grids
         ratio = max(1.0, target / dt)
         kmax = max(0, int((n / ratio) / 2) - 2)
+        if rng.integers(2):
+            # up to the HIGHEST harmonic strictly below the Nyquist frequencies of both grids (the output length is asked of the
+            # function itself, on a silent record)
+            try:
+                with warnings.catch_warnings():
+                    warnings.simplefilter("ignore")
+                    n_out = len(tp.resample_to_approx_dt(eqsig.AccSignal(np.zeros(n), dt), target, even=even).values)
+                kmax = max(0, (min(n, n_out) - 1) // 2)
+            except Exception:
+                pass
         nk = int(min(kmax, rng.integers(1, 6))) if kmax >= 1 else 0
         ks = sorted(set(int(v) for v in rng.integers(1, kmax + 1, size=nk))) if nk else []
+        if nk and rng.integers(2) and kmax not in ks:
+            ks.append(kmax)          # the top admissible harmonic itself
         a_s = [float(v) for v in rng.standard_normal(len(ks))]
         b_s = [float(v) for v in rng.standard_normal(len(ks))]
         if mode in (0, 2) and n % 2 == 0 and i % 2 == 0:
@@ -148,7 +170,10 @@ def build_traces(path, tier, seed):
         try:
             with warnings.catch_warnings():
                 warnings.simplefilter("ignore")
-                o = tp.resample_to_approx_dt(eqsig.AccSignal(np.asarray(x, dtype=float), dt), target, even=even)
+                oin = eqsig.AccSignal(np.asarray(x, dtype=float), dt)
+                o = tp.resample_to_approx_dt(oin, target, even=even)
+                if i % 2:            # history: the SAME input object is resampled again; the second result is the one validated
+                    o = tp.resample_to_approx_dt(oin, target, even=even)
                 ndt, y = o.dt, o.values
         except Exception as ex:
             raised = True
